@@ -45,6 +45,17 @@ def topo_order(nodes, di):
     return out
 
 
+def _relevant(tab, keys, j):
+    """does argument j influence the table?"""
+    seen = {}
+    for k in keys:
+        r = k[:j] + k[j + 1:]
+        if r in seen and seen[r] != tab[k]:
+            return True
+        seen.setdefault(r, tab[k])
+    return False
+
+
 class Fscm:
     def __init__(self, nodes, di, bi, rng: random.Random, max_card=3):
         self.nodes = sorted(set(nodes) | {x for e in di for x in e} | {x for e in bi for x in e})
@@ -95,7 +106,13 @@ class Fscm:
         self.f = {}
         for v in self.nodes:
             dims = [range(self.card[p]) for p in self.pa[v]] + [range(self.exo_card[k]) for k in self.lat_of[v]]
-            self.f[v] = {key: rng.randrange(self.card[v]) for key in itt.product(*dims)}
+            keys = list(itt.product(*dims))
+            tab = None
+            for _ in range(6):   # prefer generic mechanisms: every argument matters (still a compatible model either way)
+                tab = {key: rng.randrange(self.card[v]) for key in keys}
+                if all(_relevant(tab, keys, j) for j in range(len(dims))):
+                    break
+            self.f[v] = tab
         self.space = list(itt.product(*[range(self.exo_card[k]) for k in self.exo]))
         self.weight = []
         for pt in self.space:
